@@ -258,7 +258,7 @@ func init() {
 		Batches:      func(tier string) int { return 16 },
 		ChildTimeout: func(string) time.Duration { return 40 * time.Minute },
 		Run:          runC12,
-		Required: []string{"topic_block_accept", "topic_attestation_accept", "topic_aggregate_accept", "topic_exit_accept", "topic_proposer_slashing_accept", "topic_attester_slashing_accept", "topic_sync_message_accept", "topic_contribution_accept",
+		Required: []string{"topic_block_accept", "topic_attestation_accept", "topic_aggregate_accept", "topic_exit_accept", "topic_proposer_slashing_accept", "topic_attester_slashing_accept", "topic_sync_message_accept", "topic_contribution_accept", "contribution_subcommittees_with_a_member_in_two_positions",
 			"expect_ignore_cases", "expect_refuse_cases", "honest_after_refused_accept", "marks_checked"},
 	})
 }
@@ -359,6 +359,10 @@ func c12View(b *fw.B, k int) {
 		sc.Family = "gossip-fewvalidators" // fewer validators than sync committee seats: validators sit at several positions, in different subcommittees
 		sc.Validators = 24
 		sc.ForkEpochs = [4]uint64{1, 2, ff, ff}
+		if ((b.Batch+k)/nVariants)%2 == 1 {
+			// subcommittees of 32 seats for 24 validators: a validator holds two positions of the same subcommittee
+			sc.Family = "gossip-fewvalidators-bigsync"
+		}
 	case 8:
 		sc.Family = "gossip-mainnet" // 32-slot epochs: the deneb window (previous epoch) is wider than the 32-slot range
 		sc.Preset = "mainnet"
@@ -398,6 +402,10 @@ func c12View(b *fw.B, k int) {
 		// after the second rotation current != next
 		spec.EPOCHS_PER_SYNC_COMMITTEE_PERIOD = 2
 		lastSlot = 6*spe - 1
+	case 7:
+		if sc.Family == "gossip-fewvalidators-bigsync" {
+			spec.SYNC_COMMITTEE_SIZE = 128
+		}
 	case 8:
 		lastSlot = 5*spe + 20
 	case 9:
@@ -1480,6 +1488,23 @@ func (g *g12) syncTopics(gap uint64) {
 			{"no-participants", expRefuse, mkC(slot, refspec.Root(head.root), subnet, noneP, aggregator, nil)},
 			{"subcommittee-index-out-of-range", expRefuse, mkC(slot, refspec.Root(head.root), 4, allP, aggregator, nil)},
 			{"unknown-block", expIgnore, mkC(slot, refspec.Root{0xfd}, subnet, allP, aggregator, nil)},
+		}
+		// a validator can hold several positions of a subcommittee (the committee is sampled with replacement): every set position counts
+		dupPos := -1
+		for i := range members {
+			for j := 0; j < i; j++ {
+				if members[i] == members[j] {
+					dupPos = i
+				}
+			}
+		}
+		if dupPos >= 0 {
+			g.b.Inc("contribution_subcommittees_with_a_member_in_two_positions")
+			onceP := append([]bool{}, allP...)
+			onceP[dupPos] = false
+			cCorrs = append(cCorrs, cCorr{"repeated-member-signed-once-for-two-set-positions", expRefuse, mkC(slot, refspec.Root(head.root), subnet, allP, aggregator, func(m *altair.SignedContributionAndProof) {
+				m.Message.Contribution.Signature = mkC(slot, refspec.Root(head.root), subnet, onceP, aggregator, nil).Message.Contribution.Signature
+			})})
 		}
 		if outsider != ^uint64(0) {
 			cCorrs = append(cCorrs, cCorr{"aggregator-not-in-subcommittee", expRefuse, mkC(slot, refspec.Root(head.root), subnet, allP, outsider, nil)})
